@@ -17,7 +17,7 @@ from .core import (SymReal, SymInt, SymBool, Unsupported, decide, sym_ite,
                    sym_abs, sym_sqrt, sym_div, is_nan, is_inf, is_sym,
                    mk_bool, mk_int, mk_real, nice_fraction, concretize)
 
-pi = math.pi
+pi = nice_fraction(math.pi)   # exact rational reading of the double
 nan = float("nan")
 inf = float("inf")
 newaxis = None
@@ -312,6 +312,12 @@ class SymArr:
         if k is Ellipsis:
             return self
         if isinstance(k, slice):
+            if self.present is not None:
+                s = self._norm_slice(k, len(self._idx))
+                if (s.start, s.stop) == (None, None) and s.step in (None, 1, -1):
+                    st = s.step or 1
+                    return SymArr(self.elems[::st], dtype=self.dtype,
+                                  present=self.present[::st])
             self._need_dense("slice")
             s = self._norm_slice(k, len(self._idx))
             out = SymArr(None, dtype=self.dtype, _store=self._store, _idx=self._idx[s])
@@ -332,9 +338,23 @@ class SymArr:
             n = len(self._idx)
             return SymArr([self.elems[self._norm_index(i, n)] for i in k],
                           dtype=self.dtype)
+        if self.present is not None and isinstance(k, int) and k in (0, -1):
+            return self._edge_present(k)
         self._need_dense("int index")
         k = self._norm_index(k, len(self._idx))
         return self._store[self._idx[k]]
+
+    def _edge_present(self, k):
+        """First (k=0) / last (k=-1) present element as an ite chain."""
+        if decide(self._count() == 0):
+            raise IndexError("index %d is out of bounds for axis 0 with size 0" % k)
+        es, ps = self.elems, self.present
+        order = range(len(es)) if k == -1 else range(len(es) - 1, -1, -1)
+        res = None
+        for i in order:
+            # later assignments win: iterate so that the wanted edge is last
+            res = es[i] if res is None else sym_ite(ps[i], es[i], res)
+        return res
 
     def _mask_get(self, mask):
         if len(mask._idx) != len(self._idx):
